@@ -66,6 +66,9 @@ func runC02(r *vfw.Run) {
 	crossValidated := 0
 	for i := 0; i < rounds; i++ {
 		rr := l.Round(nodes)
+		if rr.SelfErr != nil {
+			r.Violate(rr.SelfPred, "%s", rr.SelfDetail)
+		}
 		// every replica with the same head must accept
 		for _, n := range nodes {
 			if n == rr.Proposer {
@@ -76,24 +79,7 @@ func runC02(r *vfw.Run) {
 				r.Violate("C02:validation-panicked", "node %d validating block h=%d of node %d: %v\n%s", n.ID, rr.Height, rr.Proposer.ID, pv, st)
 			}
 			if err != nil {
-				built := rr.Proposer.LastApplied
-				if rr.Empty {
-					built = nil
-				}
-				serr, _, _ := s.Validate(rr.Proposer, rr.Enc)
-				diff := ""
-				pred := "C02:honest-block-rejected"
-				if built != nil {
-					diff = "; building state (A) vs proposer's validating state (B):" + scen.DiffStates(built, rr.Proposer.LastApplied)
-					if only, _ := scen.OnlyEmptyIdentityCreated(built, rr.Proposer.LastApplied); only && serr != nil {
-						pred = "C02:honest-block-rejected/empty-identity-left-by-validation-of-filtered-tx"
-					}
-				}
-				var types []uint16
-				for _, tx := range rr.Block.Body.Transactions {
-					types = append(types, uint16(tx.Type))
-				}
-				r.Violate(pred, "node %d rejects block h=%d (empty=%v, %d txs of types %v) proposed by node %d: %v; proposer's own validation of the same bytes: %v%s", n.ID, rr.Height, rr.Empty, rr.Txs, types, rr.Proposer.ID, err, serr, diff)
+				r.Violate("C02:honest-block-rejected-by-peer", "node %d rejects block h=%d (empty=%v, %d txs) proposed by node %d, which accepts it itself: %v; proposer's state (A) vs this validator's state (B):%s", n.ID, rr.Height, rr.Empty, rr.Txs, rr.Proposer.ID, err, scen.DiffStates(rr.Proposer.LastApplied, n.LastApplied))
 			}
 			if !rr.Empty && rr.Txs > 0 {
 				crossValidated++
